@@ -1587,7 +1587,144 @@ class InlinedFn(Fn):
         if self._body is None:
             self._body = Body(self, self.j["mir"])
             self._devirtualise()
+            for _round in range(3):
+                if not self._resolve_closure_calls():
+                    break
         return self._body
+
+    def region(self):
+        self.body  # resolving closure calls may remove closures from the region
+        return Fn.region(self)
+
+    def _resolve_closure_calls(self):
+        """`f(x)` through Fn/FnMut/FnOnce::call* where `f` is (after splicing) a function item or a closure literal
+        created in this very body: function items become direct calls, closure literals are spliced in.  A private
+        generic helper taking `impl Fn(..)` arguments is thereby as transparent as one taking values."""
+        b = self._body
+        cand = [i for i, blk in enumerate(b.blocks) if (blk.get("t") or {}).get("k") == "call" and str(blk["t"].get("callee") or "").endswith(("Fn::call", "FnMut::call_mut", "FnOnce::call_once")) and len(blk["t"].get("args", [])) == 2 and not blk["t"].get("closure_resolved")]
+        if not cand:
+            return False
+        sy = Sym(self)
+        crate = self.crate
+        blocks = list(b.blocks)
+        locals_ = list(b.locals)
+        changed = False
+        my_closures = {c.path: c for c in self.children}
+        for i in cand:
+            t = blocks[i]["t"]
+            try:
+                f = strip_sym(sy.operand(t["args"][0]))
+            except RecursionError:
+                continue
+            # the argument tuple built for the call
+            tp = t["args"][1].get("move") or t["args"][1].get("copy")
+            ops = None
+            if tp is not None and not tp.get("pr"):
+                for st in reversed(blocks[i]["s"]):
+                    if st["k"] == "assign" and st["p"]["l"] == tp["l"] and not st["p"].get("pr") and st["rv"]["k"] == "agg" and st["rv"].get("agg") == "tuple":
+                        ops = st["rv"]["ops"]
+                        break
+            if ops is None and "const" in t["args"][1]:
+                ops = []
+            if ops is None:
+                continue
+            if isinstance(f, tuple) and f[:2] == ("const", "fn"):
+                blocks[i] = dict(blocks[i], t=dict(t, callee=f[2], resolved=f[2], rkind="item", args=list(ops), devirt=True, closure_resolved=True))
+                t.pop("trait", None) if False else None
+                blocks[i]["t"].pop("trait", None)
+                blocks[i]["t"].pop("self_ty", None)
+                changed = True
+                continue
+            if not (isinstance(f, tuple) and f and f[0] == "agg" and f[1] == "closure"):
+                continue
+            cf = my_closures.get(f[5]) or crate.by_path.get(f[5])
+            cm = (cf.j.get("mir") if cf is not None else None)
+            if not cm or len(cm["blocks"]) > 300 or len(blocks) > 3000:
+                continue
+            if cm["argc"] != 1 + len(ops):
+                continue
+            # bind: closure local 1 := the closure (by reference if the body wants a reference), locals 2.. := arguments
+            loff = len(locals_)
+            landing = len(blocks)
+            boff = landing + 1
+            locals_.extend(cm["locals"])
+            ln = {"ln": t.get("ln"), "exp": t.get("exp")}
+            self_op = t["args"][0]
+            wants_ref = str(cm["locals"][1]["ty"]).startswith("&")
+            sp = self_op.get("move") or self_op.get("copy")
+            given_ref = sp is not None and str(locals_[sp["l"]]["ty"]).startswith("&") and not sp.get("pr")
+            binds = []
+            if wants_ref and not given_ref and sp is not None:
+                binds.append(dict(ln, k="assign", p={"l": loff + 1}, rv={"k": "ref", "p": sp, "mut": False}, inl_arg=f[5]))
+            else:
+                binds.append(dict(ln, k="assign", p={"l": loff + 1}, rv={"k": "use", "a": self_op}, inl_arg=f[5]))
+            for k_, o in enumerate(ops):
+                binds.append(dict(ln, k="assign", p={"l": loff + 2 + k_}, rv={"k": "use", "a": o}, inl_arg=f[5]))
+            land_stmts = [dict(ln, k="assign", p=t["dest"], rv={"k": "use", "a": {"move": {"l": loff}}}, inl_ret=f[5])]
+            land_term = dict(ln, k="goto", target=t["target"]) if t.get("target") is not None else dict(ln, k="unreachable")
+            blocks.append({"s": land_stmts, "t": land_term, "cleanup": blocks[i].get("cleanup")})
+            cu = t.get("unwind")
+            for cb in cm["blocks"]:
+                ns = []
+                for st in cb["s"]:
+                    s2 = dict(st)
+                    if st["k"] == "assign":
+                        s2["p"] = _shift_place(st["p"], loff)
+                        s2["rv"] = _shift_rv(st["rv"], loff)
+                    elif st["k"] == "setdiscr":
+                        s2["p"] = _shift_place(st["p"], loff)
+                    elif st["k"] in ("live", "dead"):
+                        s2["l"] = st["l"] + loff
+                    ns.append(s2)
+                ct = cb.get("t") or {"k": "none"}
+                k = ct.get("k")
+                if k == "return":
+                    nt = {"k": "goto", "target": landing, "ln": ct.get("ln"), "inl_return": True}
+                elif k == "resume":
+                    nt = {"k": "goto", "target": cu, "ln": ct.get("ln")} if isinstance(cu, int) else dict(ct)
+                else:
+                    nt = dict(ct)
+                    for key in ("target", "otherwise", "drop"):
+                        if isinstance(nt.get(key), int):
+                            nt[key] = nt[key] + boff
+                    if isinstance(nt.get("unwind"), int):
+                        nt["unwind"] = nt["unwind"] + boff
+                    elif nt.get("unwind") == "continue" and isinstance(cu, int):
+                        nt["unwind"] = cu
+                    if "arms" in nt:
+                        nt["arms"] = [dict(a, bb=a["bb"] + boff) for a in nt["arms"]]
+                    for key in ("discr", "cond", "callee_op"):
+                        if isinstance(nt.get(key), dict):
+                            nt[key] = _shift_op(nt[key], loff)
+                    if "args" in nt:
+                        nt["args"] = [_shift_op(o, loff) for o in nt["args"]]
+                    for key in ("dest", "p"):
+                        if isinstance(nt.get(key), dict):
+                            nt[key] = _shift_place(nt[key], loff)
+                blocks.append({"s": ns, "t": nt, "cleanup": cb.get("cleanup") or blocks[i].get("cleanup")})
+            blocks[i] = {"s": list(blocks[i]["s"]) + binds, "t": dict(ln, k="goto", target=boff, inl_call=f[5]), "cleanup": blocks[i].get("cleanup")}
+            changed = True
+        if changed:
+            mir = dict(self.j["mir"], blocks=blocks, locals=locals_)
+            self.j["mir"] = mir
+            self._body = Body(self, mir)
+            # closures whose every use was a spliced call are no longer part of the region
+            sy2 = Sym(self)
+            still_used = set()
+            for blk in blocks:
+                t = blk.get("t") or {}
+                if t.get("k") == "call":
+                    for a in t.get("args", []):
+                        try:
+                            v = strip_sym(sy2.operand(a))
+                        except RecursionError:
+                            continue
+                        for x in sym_walk(v):
+                            if isinstance(x, tuple) and x and x[0] == "agg" and x[1] == "closure":
+                                still_used.add(x[5])
+            spliced = {blk["t"].get("inl_call") for blk in blocks if (blk.get("t") or {}).get("inl_call")}
+            self.children = [c for c in self.children if c.path not in spliced or c.path in still_used]
+        return changed
 
     def _devirtualise(self):
         """Calls through a function pointer whose value is a known function item (passed down from the caller of a
